@@ -312,3 +312,31 @@ fn probe_cursor_equivalence_histories() {
         }
     }
 }
+
+/// C07: an archive opens with the private key of ANY one recipient, at ANY position among other candidate keys.
+#[test]
+fn probe_recipient_key_any_candidate_position() {
+    use x25519_dalek::{PublicKey, StaticSecret};
+    let sk = |s: u8| { let mut b = [0u8; 32]; for (i, x) in b.iter_mut().enumerate() { *x = s.wrapping_mul(17).wrapping_add(i as u8); } StaticSecret::from(b) };
+    let recipients: Vec<StaticSecret> = (1..4).map(sk).collect();
+    let strangers: Vec<StaticSecret> = (100..103).map(sk).collect();
+    let pubs: Vec<PublicKey> = recipients.iter().map(PublicKey::from).collect();
+    let mut wcfg = EncryptionConfig::default();
+    wcfg.ecc_keys.extend_from_slice(&pubs);
+    let persist = wcfg.to_persistent().unwrap();
+    let try_load = |cands: &[StaticSecret]| {
+        let mut rcfg = EncryptionReaderConfig::default();
+        rcfg.private_keys.extend_from_slice(cands);
+        rcfg.load_persistent(&persist).map(|()| rcfg.encrypt_parameters.map(|p| p.0))
+    };
+    assert!(try_load(&strangers).is_err(), "strangers only must be refused");
+    for (ri, r) in recipients.iter().enumerate() {
+        for pos in 0..=strangers.len() {
+            let mut cands: Vec<StaticSecret> = strangers.clone();
+            cands.insert(pos, r.clone());
+            let got = try_load(&cands);
+            assert!(got.is_ok(), "recipient {ri} at candidate position {pos} of {}: refused ({:?})", cands.len(), got.err());
+            assert_eq!(got.unwrap(), Some(wcfg.key), "recipient {ri} at position {pos}: wrong symmetric key");
+        }
+    }
+}
